@@ -3,9 +3,9 @@
 # filed under one property but another owns the mechanism), one after the other. Output: /verif/.work/seedsweep.log
 cd /verif
 declare -A EXTRA=( [C20-b]="C15" [C20-a]="C19 C03" [C15-a]="" [C09-a]="" [C10-a]="" [C10-b]="" )
-: > .work/seedsweep.log
-for d in seeded/C*/; do
-  id=$(basename $d)
+# usage: seedsweep.sh [seed-id ...]   (default: all); appends to .work/seedsweep.log
+LIST="$@"; [ -n "$LIST" ] || LIST=$(ls seeded | grep '^C')
+for id in $LIST; do
   p=${id%%-*}
   lib/seedrun.sh $id $p ${EXTRA[$id]} 2>&1 | cut -c1-400 >> .work/seedsweep.log
 done
